@@ -113,7 +113,7 @@ func generate(w *World, prop string) *PropRun {
 				}
 			}()
 			st := newState()
-			env := &CEnv{f: lf, st: st, old: st, pkgName: "pkg", bound: map[string]Term{}, names: map[string]Term{}}
+			env := &CEnv{f: lf, st: st, old: st, pkgName: lm.Pkg, bound: map[string]Term{}, names: map[string]Term{}}
 			g := env.boolT(lm.Expr)
 			lf.obls = append(lf.obls, &Obligation{ID: "lemma#" + lm.Label, Func: "lemma", Kind: "lemma", Props: lm.Props, Clause: lm.Text, Goal: g, Expect: "unsat"})
 		}()
